@@ -385,3 +385,96 @@ Proof.
       pose proof (opt_layout_pos t). pose proof (len_nonneg (cat opt_layout l)). unfold len in G at 2. lia. }
     rewrite Oe0. unfold md_decoded, mp_decoded, opts_decoded. rewrite O0. fold f S Dd. reflexivity.
 Qed.
+
+(* ================= corollaries ================= *)
+
+Lemma md_pack_decoded c q o : md_pack (md_decoded c q o) = md_pack (md_pdu_of c q o).
+Proof.
+  unfold md_pack, md_decoded, md_pdu_of, mp_decoded, opts_decoded.
+  cbn [md_fdir md_params md_src_lv md_dst_lv md_options mp_closure mp_cstype mp_fsize].
+  destruct o as [[|t l]|]; reflexivity.
+Qed.
+
+(* K_repack *)
+Theorem md_repack c q o : md_valid c q o -> md_pack (md_decoded c q o) = Ok (md_layout c q o).
+Proof. intros V. rewrite md_pack_decoded. apply md_pack_layout. exact V. Qed.
+
+Lemma tlv_eqb_refl t : tlv_eqb t t = true.
+Proof. apply tlv_eqb_eq. reflexivity. Qed.
+Lemma opts_eqb_refl l : opts_eqb l l = true.
+Proof. induction l as [|t l IH]; cbn [opts_eqb]; [reflexivity|]. rewrite tlv_eqb_refl, IH. reflexivity. Qed.
+
+Theorem md_eq_roundtrip c q o : md_eqb (md_decoded c q o) (md_pdu_of c q o) = true.
+Proof.
+  unfold md_eqb, md_decoded, md_pdu_of, mp_decoded, opts_decoded.
+  cbn [md_fdir md_params md_src_lv md_dst_lv md_options mp_closure mp_cstype mp_fsize].
+  rewrite fdir_eqb_refl, !Z.eqb_refl. unfold lv_eqb. rewrite !bytes_eqb_refl. cbn [andb].
+  unfold options_eqb. destruct o as [[|t l]|]; cbn [opts_of]; apply opts_eqb_refl.
+Qed.
+
+(* the name getters of the decoded object return what was given (None for no / an empty name) *)
+Theorem md_names_decoded c q o : md_valid c q o ->
+  utf8_valid (name_octets (mp_src q)) = true ->
+  md_name_get (md_src_lv (md_decoded c q o)) =
+  Ok (match name_octets (mp_src q) with [] => None | n => Some n end).
+Proof.
+  intros _ U. unfold md_name_get, md_decoded. cbn [md_src_lv].
+  destruct (name_octets (mp_src q)) as [|x r] eqn:E; [reflexivity|].
+  assert (len (x :: r) =? 0 = false) as -> by (rewrite len_cons; pose proof (len_nonneg r); lia).
+  unfold utf8_decode. rewrite U. reflexivity.
+Qed.
+
+Theorem md_suffix_irrelevant c q o s : md_valid c q o -> wf_bytes s ->
+  md_unpack (md_layout c q o ++ s) = md_unpack (md_layout c q o).
+Proof.
+  intros V W. rewrite md_unpack_pack by assumption.
+  pose proof (md_unpack_pack c q o [] V ltac:(constructor)) as E. rewrite app_nil_r in E. symmetry. exact E.
+Qed.
+
+Theorem md_roundtrip c q o rest : md_valid c q o -> wf_bytes rest ->
+  exists p b p',
+    md_new c q o = Ok (p, c, q) /\ md_pack p = Ok b /\ b = md_layout c q o /\
+    md_packet_len p = len b /\
+    md_unpack (b ++ rest) = Ok p' /\
+    mp_closure (md_params p') = mp_closure q /\ mp_cstype (md_params p') = mp_cstype q /\
+    mp_fsize (md_params p') = mp_fsize q /\
+    md_src_lv p' = name_octets (mp_src q) /\ md_dst_lv p' = name_octets (mp_dst q) /\
+    opts_of (md_options p') = opts_of o /\
+    md_eqb p' p = true /\ md_pack p' = Ok b /\ md_packet_len p' = len b.
+Proof.
+  intros V W. exists (md_pdu_of c q o), (md_layout c q o), (md_decoded c q o).
+  destruct (md_data_field_len c q o V) as (PL & _).
+  split; [apply md_new_ok; exact V|]. split; [apply md_pack_layout; exact V|]. split; [reflexivity|].
+  split; [exact PL|]. split; [apply md_unpack_pack; assumption|].
+  repeat (split; [reflexivity|]).
+  split; [unfold md_decoded, opts_decoded; cbn [md_options]; destruct o as [[|t l]|]; reflexivity|].
+  split; [apply md_eq_roundtrip|]. split; [apply md_repack; exact V|exact PL].
+Qed.
+
+(* K_too_large_fails: a file size outside the field (>= 2^32 without the large-file flag,
+   >= 2^64 with it, or negative) makes pack fail; nothing truncated is ever returned *)
+Theorem md_file_size_refused p : flag (cf_large (h_conf (fd_hdr (md_fdir p)))) ->
+  ~ (0 <= mp_fsize (md_params p) < 256 ^ Z.of_nat (fss_width (h_conf (fd_hdr (md_fdir p))))) ->
+  exists e, md_pack p = Err e.
+Proof.
+  intros Fl R. unfold md_pack.
+  destruct (fdir_verify_file_len _ _); [|eexists; reflexivity]. cbn [bind].
+  destruct (fdir_pack _); [|eexists; reflexivity]. cbn [bind].
+  destruct (ba_append _ _); [|eexists; reflexivity]. cbn [bind].
+  unfold hdr_large_file, FILE_LARGE. unfold fss_width in R.
+  destruct (cf_large (h_conf (fd_hdr (md_fdir p))) =? 1); rewrite struct_pack_err by exact R;
+    eexists; reflexivity.
+Qed.
+
+(* names longer than 255 octets and option lists that overflow the data field are refused by
+   the constructor *)
+Theorem md_name_too_long_refused c q o :
+  255 < len (name_octets (mp_src q)) \/ 255 < len (name_octets (mp_dst q)) ->
+  md_new c q o = Err EValue.
+Proof.
+  intros H. unfold md_new.
+  assert (N : forall x, name_lv x = if len (name_octets x) >? 255 then Err EValue else Ok (name_octets x)).
+  { intros x. destruct x; reflexivity. }
+  rewrite !N. destruct H; destruct (len (name_octets (mp_src q)) >? 255) eqn:E1; try lia; try reflexivity.
+  cbn [bind]. destruct (len (name_octets (mp_dst q)) >? 255) eqn:E2; [reflexivity|lia].
+Qed.
